@@ -49,10 +49,16 @@ def run(db, rep, tier):
                         "matched by the counter adjustment (typestate on all CFG paths)", 6)
     rep.rule("R2-serial", "no <,>,<=,>= between two sequence-number values outside seq_compare/compare_seq_numbers", 12)
     rep.rule("R3-wrap", "cyclic walks over the sequence-keyed map wrap past-the-end to begin() at every advance", 2)
+    rep.rule("R4-reseed", "a flow's expected sequence number is (re)initialised from a SYN only while the flow is in its initial state", 1)
+    rep.rule("R5-keep-longest", "legacy follower: of two buffered segments starting at the same sequence number the longer one is kept", 1)
     r1(db, rep)
     r2(db, rep)
     r3(db, rep)
-    rep.explanation = ("Decides three structural clauses of C06: (R1) byte-counter accounting of DataTracker's out-of-order "
+    r4(db, rep)
+    r5(db, rep)
+    rep.explanation = ("Also: (R4) DataTracker::sequence_number(x) is called from Flow only under state_ == UNKNOWN - a retransmitted SYN "
+                       "cannot rewind a flow that already delivered data; (R5) decision table of TCPStream::safe_insert. "
+                       "Decides three structural clauses of C06: (R1) byte-counter accounting of DataTracker's out-of-order "
                        "buffer on every CFG path incl. helper summaries (by-value vs rvalue-reference consumption of moved "
                        "chunks); (R2) sequence numbers are ordered only through the RFC 1982 helpers; (R3) wrap-around of the "
                        "cyclic map walk. Does NOT decide prefix/exactly-once delivery or overlap resolution: those are "
@@ -427,3 +433,108 @@ def followed_by_wrap(a, g, f, adv, v, loop):
         first = False
         stack.extend(g.succs(b))
     return True
+
+
+def r4(db, rep):
+    from vlib import cond
+    n = 0
+    for fid, f in sorted(db.functions.items()):
+        if f.get("rec") != "Tins::TCPIP::Flow" or not f.get("body") or f.get("kind") == "ctor":
+            continue
+        g = None
+        for x in facts.fn_nodes(f):
+            if x["k"] == "CXXMemberCallExpr" and x.get("cname") == "sequence_number" and len(x["c"]) == 2 and \
+                    (x.get("crec") or "").endswith("DataTracker"):
+                n += 1
+                g = g or cfg.FnCFG(f)
+                key = "%s:reseed#%d" % (f["qual"].split("::")[-1], n)
+                ok = False
+                for op, l, r in cond.guards_facts(g, g.pos(x)):
+                    if op == "==" and r is not None:
+                        t = facts.expr_str(l) + " " + facts.expr_str(r)
+                        if "state_" in t and "UNKNOWN" in t:
+                            ok = True
+                        if "state_" in t and facts.cval(r) == 0 or facts.cval(l) == 0 and "state_" in t:
+                            ok = True
+                if ok:
+                    rep.ok("R4-reseed", key, facts.loc(f, x), "only while state_ == UNKNOWN")
+                else:
+                    rep.violation("R4-reseed", key, facts.loc(f, x),
+                                  "the expected sequence number is reset from the segment without testing that the flow is still in its "
+                                  "initial state: a retransmitted SYN rewinds a flow that already delivered data, which is then delivered again")
+    if n < 1:
+        rep.analysis_broken("no call of DataTracker::sequence_number(x) in Flow")
+
+
+def r5(db, rep):
+    from vlib import ieval
+    fs = db.fns_named("Tins::TCPStream::safe_insert")
+    if not fs:
+        rep.analysis_broken("TCPStream::safe_insert vanished")
+        return
+    f = fs[0]
+    key = "safe_insert:table"
+    pnew = f["params"][2]["var"]
+    stored = None
+    for x in facts.fn_nodes(f):
+        if x["k"] == "VarDecl" and x.get("c") and (facts.tyi(f, x.get("t")) or {}).get("k") == "ref":
+            stored = x["var"]
+    if stored is None:
+        rep.analysis_broken("safe_insert: reference to the stored slot not found")
+        return
+
+    def effects(stmt, env, tf):
+        out = []
+        if stmt is None:
+            return out
+        k = stmt["k"]
+        if k == "CompoundStmt":
+            for x in stmt.get("c", []):
+                out += effects(x, env, tf)
+            return out
+        if k == "IfStmt":
+            real = [x for x in stmt["c"] if x is not None]
+            c = ieval.ev(f, real[0], dict(env, __termfn__=tf), {})
+            return effects(real[1] if c else (real[2] if len(real) > 2 else None), env, tf)
+        for x in facts.walk(stmt):
+            if x["k"] == "CXXDeleteExpr":
+                a = facts.strip_all(x["c"][0])
+                out.append(("delete", "stored" if a.get("var") == stored else "new" if a.get("var") == pnew else "?"))
+            if x["k"] == "BinaryOperator" and x.get("op") == "=" and strip(x["c"][0]).get("var") == stored:
+                out.append(("store", "new" if facts.strip_all(x["c"][1]).get("var") == pnew else "?"))
+        return out
+    bad = None
+    try:
+        for have in (0, 1):
+            for s_old, s_new in ((5, 9), (9, 5), (7, 7)):
+                def tf(x, have=have, s_old=s_old, s_new=s_new):
+                    if x["k"] == "DeclRefExpr" and x.get("var") == stored:
+                        return have
+                    if x["k"] == "CXXMemberCallExpr" and x.get("cname") == "payload_size":
+                        o = facts.strip_all([y for y in facts.walk(x["c"][0]) if y["k"] == "DeclRefExpr"][0]) if x["c"] else None
+                        return s_old if o is not None and o.get("var") == stored else s_new
+                    return None
+                eff = effects(f["body"], {}, tf)
+                kept = "new" if ("store", "new") in eff else "stored"
+                if not have:
+                    if eff != [("store", "new")]:
+                        bad = "an empty slot is not simply filled: %s" % eff
+                elif s_new > s_old and kept != "new":
+                    bad = "a %d-byte segment arriving for a position that holds a %d-byte one is discarded: the extra bytes never reach the stream" % (s_new, s_old)
+                elif s_new < s_old and kept != "stored":
+                    bad = "a shorter retransmission replaces the longer buffered segment"
+                elif have and kept == "new" and ("delete", "stored") not in eff:
+                    bad = "the replaced segment is not freed"
+                elif have and kept == "stored" and ("delete", "new") not in eff:
+                    bad = "the discarded segment is not freed"
+                if bad:
+                    break
+            if bad:
+                break
+    except ieval.Unknown as e:
+        rep.undecided("R5-keep-longest", key, facts.loc(f), "outside the evaluator: %s" % e)
+        return
+    if bad:
+        rep.violation("R5-keep-longest", key, facts.loc(f), bad)
+    else:
+        rep.ok("R5-keep-longest", key, facts.loc(f), "empty slot filled; otherwise the longer payload is kept and the other one freed (6 cells)")
